@@ -199,3 +199,5 @@ def run(ctx, rep):
     rule_hash(ctx, rep)
     rule_types(ctx, rep)
     rule_pipeline(ctx, rep)
+    from rules.c03 import rule_allsources
+    rule_allsources(ctx, rep, rid="R-C06-allsources")
